@@ -160,6 +160,116 @@ pub fn eval_array(ctx: &mut Ctx, bits: &[bool], width: usize, tag: &str) {
     ctx.sample(|| J::obj().set("workload", J::s(tag)).set("width", J::i(width)).set("len", J::i(bits.len())).set("crate_result", J::s(match &res { Ok((s, _, _)) => format!("Ok({:?})", s), Err(e) => format!("Err({:?})", e) })));
 }
 
+/// arrays over a Bit type with more than two values: a third value in any finder / clock / alignment /
+/// fixed-corner module must be rejected (re-rendering could not reproduce it); in a data module it is content
+pub fn eval_array_tag(ctx: &mut Ctx, r: &Row, tags: &[super::c07::Tag], tag: &str) {
+    use super::c07::Tag;
+    use datamatrix::placement::Bit;
+    ctx.eval();
+    let width = r.cols;
+    let case = || Case::new("finder_tag").with("size", r.name).with("tags", tags.iter().map(|t| if *t == Tag::LOW { "0".to_string() } else if *t == Tag::HIGH { "1".to_string() } else { format!("x{}", t.0) }).collect::<Vec<_>>().join(""));
+    let n_map = r.map_rows() * r.map_cols();
+    let mut is_data = vec![false; tags.len()];
+    for i in 0..n_map {
+        is_data[symbol_pos(r, i)] = true;
+    }
+    if r.has_corner_pattern() {
+        let (h, w) = (r.map_rows(), r.map_cols());
+        for i in [(h - 2) * w + w - 2, (h - 2) * w + w - 1, (h - 1) * w + w - 2, (h - 1) * w + w - 1] {
+            is_data[symbol_pos(r, i)] = false;
+        }
+    }
+    let bits: Vec<bool> = tags.iter().map(|t| *t == Tag::HIGH).collect();
+    let structure_binary = tags.iter().zip(&is_data).all(|(t, d)| *d || *t == Tag::LOW || *t == Tag::HIGH);
+    let want_ok = structure_binary && matches!(expect(&bits, width), Expect::Dims(_, true));
+    let res = guard(|| match MatrixMap::<Tag>::try_from_bits(tags, width) {
+        Ok((m, s)) => {
+            let bm = m.bitmap();
+            Ok((s, bm.width(), bm.bits().to_vec()))
+        }
+        Err(e) => Err(e),
+    });
+    match res {
+        Err(p) => ctx.violation("panic", &case(), p),
+        Ok(Ok((s, w, re))) => {
+            if w != width || re != tags {
+                ctx.violation("accepted_but_rerender_differs", &case(), "re-rendering the parsed content does not reproduce the (multi-valued) array");
+            } else if !want_ok {
+                ctx.violation("accepted_non_rendering", &case(), "array with a non-binary or wrong structural module was accepted");
+            } else if s != r.size {
+                ctx.violation("wrong_size_detected", &case(), format!("{:?}", s));
+            } else {
+                ctx.count("tag.accepted");
+                ctx.count(&format!("arr.{}", tag));
+            }
+        }
+        Ok(Err(e)) => {
+            if want_ok {
+                ctx.violation("valid_rendering_rejected", &case(), format!("{:?}", e));
+            } else {
+                ctx.count("tag.rejected");
+                ctx.count(&format!("arr.{}", tag));
+            }
+        }
+    }
+}
+
+/// whole-line deviations: a complete row / column inverted, rotated by one module, or exchanged with its neighbour
+pub fn structured_deviations(ctx: &mut Ctx, r: &Row, base: &[bool]) {
+    let (rows, cols) = (r.rows, r.cols);
+    for y in 0..rows {
+        let mut a = base.to_vec();
+        for x in 0..cols {
+            a[y * cols + x] = !a[y * cols + x];
+        }
+        eval_array(ctx, &a, cols, "row_inverted");
+        let mut a = base.to_vec();
+        a[y * cols..(y + 1) * cols].rotate_left(1);
+        eval_array(ctx, &a, cols, "row_rotated");
+        if y + 1 < rows {
+            let mut a = base.to_vec();
+            for x in 0..cols {
+                a.swap(y * cols + x, (y + 1) * cols + x);
+            }
+            eval_array(ctx, &a, cols, "rows_swapped");
+        }
+    }
+    for x in 0..cols {
+        let mut a = base.to_vec();
+        for y in 0..rows {
+            a[y * cols + x] = !a[y * cols + x];
+        }
+        eval_array(ctx, &a, cols, "column_inverted");
+        let mut a = base.to_vec();
+        let first = a[x];
+        for y in 0..rows - 1 {
+            a[y * cols + x] = a[(y + 1) * cols + x];
+        }
+        a[(rows - 1) * cols + x] = first;
+        eval_array(ctx, &a, cols, "column_rotated");
+        if x + 1 < cols {
+            let mut a = base.to_vec();
+            for y in 0..rows {
+                a.swap(y * cols + x, y * cols + x + 1);
+            }
+            eval_array(ctx, &a, cols, "columns_swapped");
+        }
+    }
+    // all modules inverted, and the region-local pieces: each half / stripe of every clock row inverted
+    let a: Vec<bool> = base.iter().map(|b| !*b).collect();
+    eval_array(ctx, &a, cols, "all_inverted");
+    let seg = r.reg_cols() + 2;
+    for y in 0..rows {
+        for s0 in (0..cols).step_by(seg) {
+            let mut a = base.to_vec();
+            for x in s0..(s0 + seg).min(cols) {
+                a[y * cols + x] = !a[y * cols + x];
+            }
+            eval_array(ctx, &a, cols, "row_segment_inverted");
+        }
+    }
+}
+
 pub fn run(ctx: &mut Ctx) {
     let thorough = ctx.is_thorough();
     let mut item = 0usize;
@@ -167,7 +277,7 @@ pub fn run(ctx: &mut Ctx) {
     for r in CAT.iter() {
         let pl = Placement::for_row(r);
         let mut vecs: Vec<(&str, Vec<u8>)> = vec![("zero", vec![0; r.total()]), ("ones", vec![0xFF; r.total()]), ("checker", (0..r.total()).map(|i| if i % 2 == 0 { 0xAA } else { 0x55 }).collect())];
-        for _ in 0..ctx.budget(16 * 4, 16 * 200) {
+        for _ in 0..ctx.budget(16 * 40, 16 * 400) {
             vecs.push(("random", ctx.rng.bytes(r.total())));
         }
         for (i, (tag, v)) in vecs.iter().enumerate() {
@@ -185,7 +295,7 @@ pub fn run(ctx: &mut Ctx) {
         let base_cw = if true { srng.bytes(r.total()) } else { base_cw };
         let base = render(r, &pl.fill(&base_cw));
         let n = base.len();
-        let complete = thorough || n <= 48 * 48;
+        let complete = thorough || n <= 144 * 144;
         all_dev &= complete;
         let step = if complete { 1 } else { 23 };
         let mut i = 0;
@@ -199,7 +309,7 @@ pub fn run(ctx: &mut Ctx) {
             i += step;
         }
         // double deviations, random arrays of this dimension, valid finder + random content
-        for k in 0..ctx.budget(16 * 12, 16 * 800) {
+        for k in 0..ctx.budget(16 * 200, 16 * 2000) {
             let mut a = base.clone();
             match k % 4 {
                 0 => {
@@ -231,6 +341,23 @@ pub fn run(ctx: &mut Ctx) {
                 }
             }
         }
+        if ctx.mine(item) {
+            structured_deviations(ctx, r, &base);
+            // three-valued module type: every single structural or data module replaced by a third value (sampled for big symbols)
+            use super::c07::Tag;
+            use datamatrix::placement::Bit;
+            let tags: Vec<Tag> = base.iter().map(|b| if *b { Tag::HIGH } else { Tag::LOW }).collect();
+            eval_array_tag(ctx, r, &tags, "tag_valid");
+            let stepn = if n <= 32 * 32 || thorough { 1 } else { 7 };
+            let mut i = 0;
+            while i < n {
+                let mut t = tags.clone();
+                t[i] = Tag(7);
+                eval_array_tag(ctx, r, &t, "tag_third_value_single_module");
+                i += stepn;
+            }
+        }
+        item += 1;
         // transposed symbol
         if ctx.mine(item) && r.rows != r.cols {
             let mut tr = vec![false; n];
@@ -245,7 +372,7 @@ pub fn run(ctx: &mut Ctx) {
     }
     ctx.exhaustive.insert("single_module_deviations_all_sizes".into(), all_dev);
     // (width, len) grid
-    let maxk = if thorough { 150 } else { 40 };
+    let maxk = if thorough { 150 } else { 80 };
     for w in 0..=150usize {
         if !ctx.mine(item + w) {
             continue;
@@ -281,6 +408,30 @@ pub fn replay(ctx: &mut Ctx, case: &Case) {
         "finder_fwd" => {
             let Some(r) = case.get("size").and_then(cat::by_name) else { return ctx.harness_error("bad size") };
             eval_forward(ctx, r, &Placement::for_row(r), &case.get_bytes("cw"), "replay");
+        }
+        "finder_tag" => {
+            use super::c07::Tag;
+            use datamatrix::placement::Bit;
+            let Some(r) = case.get("size").and_then(cat::by_name) else { return ctx.harness_error("bad size") };
+            let mut tags = Vec::new();
+            let t = case.get("tags").unwrap_or("");
+            let mut it = t.chars().peekable();
+            while let Some(c) = it.next() {
+                match c {
+                    '0' => tags.push(Tag::LOW),
+                    '1' => tags.push(Tag::HIGH),
+                    'x' => {
+                        let mut num = String::new();
+                        // third values are single digits in generated cases
+                        if let Some(d) = it.next() {
+                            num.push(d);
+                        }
+                        tags.push(Tag(num.parse().unwrap_or(7)));
+                    }
+                    _ => {}
+                }
+            }
+            eval_array_tag(ctx, r, &tags, "replay");
         }
         "finder_arr" => {
             let bits = bits_from_str(case.get("bits").unwrap_or(""), case.get_usize("len"));
